@@ -189,7 +189,12 @@ class ObjectMeta(type, Element):
             value = getattr(cls, param.name, NotPassed())
             if (
                 value == param.default
-                or (param.name == "additionalProperties" and value is True)
+                # `True` is implied, unless the base class says otherwise.
+                or (
+                    param.name == "additionalProperties"
+                    and value is True
+                    and getattr(super_cls, "additionalProperties", True) is True
+                )
                 # A non-empty description is declared by the docstring.
                 or (
                     param.name == "description"
